@@ -1681,12 +1681,36 @@ def _sink_body(stmts, budget):
     return changed
 
 
+def _merge_assign_return(stmts):
+    """`v = E` directly followed by `return v`  ->  `return E` (v is dead after the return)."""
+    changed = False
+    for st in stmts:
+        if isinstance(st, (ast.FunctionDef, ast.AsyncFunctionDef, ast.ClassDef)):
+            continue
+        for fld in ("body", "orelse", "finalbody"):
+            sub = getattr(st, fld, None)
+            if isinstance(sub, list) and sub and isinstance(sub[0], ast.stmt):
+                changed |= _merge_assign_return(sub)
+        for h in getattr(st, "handlers", []) or []:
+            changed |= _merge_assign_return(h.body)
+    if len(stmts) >= 2 and isinstance(stmts[-1], ast.Return) and isinstance(stmts[-1].value, ast.Name) and isinstance(stmts[-2], ast.Assign) \
+            and len(stmts[-2].targets) == 1 and isinstance(stmts[-2].targets[0], ast.Name) and stmts[-2].targets[0].id == stmts[-1].value.id \
+            and not any(isinstance(x, (ast.Lambda, ast.GeneratorExp)) for x in ast.walk(stmts[-2].value)):
+        ret = stmts.pop()
+        asg = stmts.pop()
+        stmts.append(ast.copy_location(ast.Return(value=asg.value), asg))
+        changed = True
+    return changed
+
+
 def sink_returns(model):
     n = 0
     for q, fn in list(model.funcs.items()):
         if fn.path.endswith("posc.py"):
             continue
-        if _sink_body(fn.node.body, [24]):
+        a_ = _sink_body(fn.node.body, [24])
+        b_ = _merge_assign_return(fn.node.body)
+        if a_ or b_:
             ast.fix_missing_locations(fn.node)
             relink(fn.node)
             n += 1
